@@ -304,6 +304,104 @@ theorem C03_tscpdag_step {s : C13.St} (h : C13.CInv s) (op : C13.COp) (hop : op.
       ((C13.cstep s op).2 = true → ∀ p q, tsBitsAt (C13.cstep s op).1 p q = tsBitsAt s p q) :=
   ⟨fun p q => goodC_of_noConf (C13.cinv_cstep h op hop).2.2 p q, fun hr p q => ts_atomic h op hr p q⟩
 
+/-! ### the conditional theorem of `Stationary.lean`, its stationarity hypothesis discharged
+
+`C03_tscpdag_add_partial` speaks about a `PairMap` (pairs of natural numbers) and *assumes* that the
+homologous copies of the named pair carry equal marks.  The nodes inside the window `0..m` are numbered
+`(x, a) ↦ x * (m + 1) + a` (a bijection), the graph becomes the pair map `toPairMap`, the copies are
+the node pairs the C13 model stores the edge on (`C13.homologous`), and the hypothesis follows from
+`ShiftClosed` (`tsBitsAt_shift`). -/
+
+def enc (m : Nat) (p : C13.Node) : Nat := p.1 * (m + 1) + p.2
+def dec (m : Nat) (i : Nat) : C13.Node := (i / (m + 1), i % (m + 1))
+
+theorem dec_enc {m : Nat} {p : C13.Node} (h : p.2 ≤ m) : dec m (enc m p) = p := by
+  obtain ⟨x, a⟩ := p
+  simp only at h
+  simp only [dec, enc, Prod.mk.injEq]
+  rw [Nat.add_comm (x * (m + 1)) a]
+  constructor
+  · rw [Nat.add_mul_div_right _ _ (by omega), Nat.div_eq_of_lt (by omega)]; omega
+  · rw [Nat.add_mul_mod_self_right, Nat.mod_eq_of_lt (by omega)]
+
+theorem dec_window (m i : Nat) : (dec m i).2 ≤ m := by
+  have := Nat.mod_lt i (show 0 < m + 1 by omega)
+  simp only [dec]; omega
+
+/-- the time-series CPDAG state as a C03 pair map -/
+def toPairMap (s : C13.St) : PairMap CBits :=
+  fun a b => tsBitsAt s (dec s.maxLag a) (dec s.maxLag b)
+
+theorem rd_toPairMap (s : C13.St) (a b : Nat) :
+    (toPairMap s).rd a b = tsBitsAt s (dec s.maxLag a) (dec s.maxLag b) := by
+  unfold PairMap.rd
+  split
+  · rfl
+  · exact tsBitsAt_swap s _ _
+
+theorem invC_toPairMap {s : C13.St} (hc : C13.NoConf s) : InvC (toPairMap s) :=
+  fun _ _ _ => goodC_of_noConf hc _ _
+
+/-- the node pairs on which the C13 model stores an edge named `(p, q)` (`q` not earlier than `p`),
+numbered -/
+def homPairs (m : Nat) (p q : C13.Node) : List (Nat × Nat) :=
+  (C13.homologous m p.1 (p.2 - q.2) q.1).map fun e => (enc m e.1, enc m e.2)
+
+theorem key_eq {u v u' v' : Nat} (h : PairMap.key u v = PairMap.key u' v') :
+    (u = u' ∧ v = v') ∨ (u = v' ∧ v = u') := by
+  unfold PairMap.key at h
+  split at h <;> split at h <;> simp only [Prod.mk.injEq] at h
+  · exact Or.inl h
+  · exact Or.inr h
+  · exact Or.inr ⟨h.2, h.1⟩
+  · exact Or.inl ⟨h.2, h.1⟩
+
+theorem homPairs_distinct (m : Nat) (p q : C13.Node) :
+    (homPairs m p q).Pairwise fun e e' => PairMap.key e.1 e.2 ≠ PairMap.key e'.1 e'.2 := by
+  unfold homPairs C13.homologous
+  rw [List.map_map, List.pairwise_map]
+  refine List.Pairwise.imp_of_mem ?_ List.pairwise_lt_range
+  intro i j hi hj hij hk
+  simp only [List.mem_range] at hi hj
+  simp only [Function.comp] at hk
+  have inj : ∀ {a b : C13.Node}, a.2 ≤ m → b.2 ≤ m → enc m a = enc m b → a = b := by
+    intro a b ha hb hab
+    rw [← dec_enc ha, ← dec_enc hb, hab]
+  rcases key_eq hk with ⟨h1, _⟩ | ⟨h1, h2⟩
+  · have := inj (by simp only; omega) (by simp only; omega) h1
+    simp only [Prod.mk.injEq, true_and] at this
+    omega
+  · have e1 := inj (by simp only; omega) (by simp only; omega) h1
+    have e2 := inj (by simp only; omega) (by simp only; omega) h2
+    simp only [Prod.mk.injEq] at e1 e2
+    omega
+
+/-- **`C03_tscpdag_add_partial` without its stationarity hypothesis**: on a time-series CPDAG state
+satisfying the C13 invariant and without contradictory marks, the guarded addition on the named pair
+followed by the raw store on all homologous copies leaves no contradictory marks -/
+theorem C03_tscpdag_add {s : C13.St} (h : C13.CInv s) (t : ET) (ht : t = .directed ∨ t = .undirected)
+    (p q : C13.Node) (hp : p.2 ≤ s.maxLag) (hq : q.2 ≤ s.maxLag) (hf : q.2 ≤ p.2) (hne : p ≠ q) :
+    InvC (tsAdd (fun b => (addC t b).2) (rawAddC t) (toPairMap s) (enc s.maxLag p) (enc s.maxLag q)
+      (homPairs s.maxLag p q)).1 := by
+  refine C03_tscpdag_add_partial t ht _ _ _ _ (invC_toPairMap h.2.2) ?_ (homPairs_distinct _ p q) ?_
+  · intro hh
+    apply hne
+    rw [← dec_enc hp, ← dec_enc hq, hh]
+  · intro e he
+    simp only [homPairs, List.mem_map] at he
+    obtain ⟨e0, he0, rfl⟩ := he
+    rw [C13.mem_homologous] at he0
+    obtain ⟨i, hi, rfl⟩ := he0
+    simp only [rd_toPairMap]
+    rw [dec_enc (by simp only; omega), dec_enc (by simp only; omega), dec_enc hp, dec_enc hq]
+    exact tsBitsAt_shift h.1 hp hq (by simp only; omega) (by simp only; omega) rfl rfl (by simp only; omega)
+
+-- non-vacuity of `C03_tscpdag_add`: after x(-1) -- y(0) (max_lag 2) the pair (x(-1), y(0)) and its copy
+example : (tsAdd (fun b => (addC .directed b).2) (rawAddC .directed)
+    (toPairMap (C13.step C13.cfgCpdag (C13.init C13.cfgCpdag 2) (.addEdge (.one 1) (0, -1) (1, 0))).1)
+    (enc 2 (0, 1)) (enc 2 (1, 0)) (homPairs 2 (0, 1) (1, 0))).2 = true := by decide
+example : homPairs 2 (0, 1) (1, 0) = [(1, 3), (2, 4)] := by decide
+
 /-! ### non-vacuity -/
 
 /-- x(-1) -- y(0); orient it (asked the "wrong" way round: the edge is oriented forward in time);
